@@ -2,6 +2,7 @@ import Failsafe.Exec
 import Failsafe.Tie.Execution
 import Failsafe.Lemmas.ExecBodiesLink
 import Failsafe.Conc.TraceHedge
+import Failsafe.Props.C09
 /-!
 # C17 — execution statistics count attempts, executions, retries and hedges exactly
 
@@ -491,6 +492,37 @@ end counters
 section hedgeTrace
 open Failsafe.Conc Failsafe.Conc.Hedge Failsafe.Conc.TraceHedge
 
+/-- the configured number of attempts never changes -/
+theorem core_n (n : Nat) (t : TS) (h : Trace.Reach (osys n) t) : t.core.n = n := by
+  induction h with
+  | init => simp [osys, Hedge.init]
+  | step t t' a _ _ hst ih =>
+    rcases Failsafe.Props.C09.step_core t t' a hst with h1 | ⟨x, h1⟩
+    · rw [h1]; exact ih
+    · cases x with
+      | launch =>
+        simp only [Hedge.step] at h1; split at h1
+        · simp only [Option.some.injEq] at h1; rw [← h1]; exact ih
+        · cases h1
+      | timer =>
+        simp only [Hedge.step] at h1; split at h1
+        · simp only [Option.some.injEq] at h1; rw [← h1]; exact ih
+        · cases h1
+      | recv =>
+        simp only [Hedge.step] at h1; split at h1
+        · split at h1
+          · simp only [Option.some.injEq] at h1; rw [← h1]; exact ih
+          · cases h1
+        · cases h1
+      | count k c =>
+        simp only [Hedge.step] at h1; split at h1
+        · simp only [Option.some.injEq] at h1; rw [← h1]; exact ih
+        · cases h1
+      | trySend k c f =>
+        simp only [Hedge.step] at h1; split at h1
+        · split at h1 <;> (simp only [Option.some.injEq] at h1; rw [← h1]; exact ih)
+        · cases h1
+
 /-- one step of the traced hedge system moves the started-attempt counter only when it starts an attempt -/
 theorem launched_step (t t' : TS) (x : TraceHedge.Act) (h : TraceHedge.step t x = some t') :
     t'.core.launched = t.core.launched + (if x = .launchFirst ∨ x = .launchHedge then 1 else 0) := by
@@ -675,6 +707,20 @@ theorem settled_attempts_eq_hedge_events (n : Nat) (t1 t2 : List Ev) (m : Nat) (
   | enter k' => simp [osys, shows] at hsh
   | seeCancelled k' => simp [osys, shows] at hsh
   | callerRet k' => simp [osys, shows] at hsh
+
+/-- **on traces**: no trace the model can show has more `OnHedge` events than `maxHedges` (`n` attempts in all, the first is not a hedge) -/
+theorem hedge_events_le_maxHedges (n : Nat) (tr : List Ev) (c : TS) (h : Trace.Run (osys n) (osys n).init tr c) :
+    tr.count Ev.hedge ≤ n - 1 := by
+  have hcnt := launched_counts_hedge_events n _ _ _ h
+  have hle := (reach_inv n c (Trace.Run.reach h Trace.Reach.init)).launchedLe
+  have h0 : (osys n).init.core.launched = 0 := by simp [osys, Hedge.init]
+  have hn : c.core.n = n := by
+    have := Trace.Run.reach h Trace.Reach.init
+    exact core_n n c this
+  rw [h0] at hcnt
+  by_cases hp : 0 < c.core.launched
+  · simp only [hp, and_self, ↓reduceIte, Nat.zero_add] at hcnt; omega
+  · simp only [hp, and_false, ↓reduceIte, Nat.zero_add, Nat.add_zero] at hcnt; omega
 
 /-- non-vacuity, decided by running the acceptor (maxHedges = 1): one hedge, two attempts — accepted; one hedge and a reading of one
 or three attempts — rejected -/
